@@ -28,6 +28,7 @@
 -/
 import TypedpyModel.Lemmas.Stub
 import TypedpyModel.Lemmas.StubSort
+import TypedpyModel.Lemmas.StubText
 namespace Typedpy.C16
 open Typedpy.Stub
 
@@ -358,6 +359,135 @@ theorem stub_params_agree_example :
     (runtimeSig true exHierarchy).params = [⟨"a", false⟩, ⟨"m", false⟩, ⟨"o", true⟩, ⟨"c", true⟩, ⟨"z", true⟩] ∧
     inheritedAddlOn true exHierarchy = false ∧ inheritedAddlOff true exHierarchy = true ∧
     renderImports [("B", "pkg.b"), ("A", "pkg.a"), ("B", "pkg.b")] = ["from pkg.a import A", "from pkg.b import B"] := by
+  decide
+
+/-! ### the TEXT of the stub: every generated header is a `def` / `class` header of Python, for all hierarchies
+
+  `Sem/StubText.lean`: annotations are a typed AST (`Ann`: dotted names, subscriptions `Optional[..]`, `dict[.., ..]`,
+  `Union[..]`, `Literal[..]`, list displays, `...`, literals), `initToks` / `helperToks` / `classToks` / `attrToks` /
+  `methodToks` are what the generator writes (token level; `lexPy` is the character level, corresponded on the real
+  `.pyi` text each run), `parseDef` is the recogniser of Python's `def` header subset with the ordering rules of
+  signatures.  `textDomain`: field names are identifiers that are not keywords and the annotations are well-formed
+  (`Ann.wf`) — what `get_type_info` returns for every case the harness generates (checked per case). -/
+
+open Typedpy.StubText
+
+/-- the generated `__init__` of every class of every hierarchy parses, and the parser reads exactly the modelled
+    parameter list back: `self`, the field keywords (positional-or-keyword, default flag as modelled), `**kw` -/
+theorem stub_init_text_parses (dflt apd : Bool) (c : ClassInfo) (anns : String → Ann)
+    (h : textDomain anns (stubInit dflt apd c).params = true) :
+    parseDef (initToks anns (stubInit dflt apd c)) =
+      some ⟨"__init__", ⟨"self", .pk, false⟩ ::
+        ((stubInit dflt apd c).params.map pkInfo ++ kwInfos (stubInit dflt apd c).kw)⟩ :=
+  c16_init_parses anns _ (stub_mandatory_first dflt apd c) h
+
+/-- the three helper methods parse: fixed leading parameters, bare `*` where written, every field keyword with a
+    default, `**kw` last -/
+theorem stub_helper_text_parses (dflt apd : Bool) (c : ClassInfo) (anns : String → Ann) (hk : Helper)
+    (h : textDomain anns (stubInit dflt apd c).params = true) :
+    parseDef (helperToks anns hk (stubInit dflt apd c)) =
+      some ⟨helperName hk, helperLeadInfos hk ++
+        ((stubInit dflt apd c).params.map (helperInfo hk) ++ kwInfos (stubInit dflt apd c).kw)⟩ :=
+  c16_helper_parses anns hk _ h
+
+/-- the parameter order rule holds of the text for ANY parameter table with mandatory parameters first (this is the
+    statement the Define-based model below re-uses) -/
+theorem init_text_parses_of_mandatory_first (anns : String → Ann) (s : Sig)
+    (hm : mandatoryFirst s.params = true) (h : textDomain anns s.params = true) :
+    parseDef (initToks anns s) = some ⟨"__init__", ⟨"self", .pk, false⟩ :: (s.params.map pkInfo ++ kwInfos s.kw)⟩ :=
+  c16_init_parses anns s hm h
+
+/-- `class X(Base, Structure):` parses -/
+theorem stub_class_header_parses (c : String) (bases : List (List String)) (hc : identOk c = true)
+    (hb : ∀ b ∈ bases, dottedOk b = true) : parseClass (classToks c bases) = some (c, bases.length) :=
+  c16_class_parses c bases hc hb
+
+/-- every attribute line `    name: annotation [= None]` parses -/
+theorem stub_attr_text_parses (dflt apd : Bool) (c : ClassInfo) (anns : String → Ann)
+    (h : textDomain anns (stubInit dflt apd c).params = true) :
+    ∀ p ∈ (stubInit dflt apd c).params, parseAttr (attrToks (anns p.name) p) = some (p.name, p.hasDefault) := by
+  intro p hp
+  have := List.all_eq_true.mp h p hp
+  simp only [Bool.and_eq_true] at this
+  exact c16_attr_parses _ p this.1 this.2
+
+/-- methods, functions and user-written `__init__`: printing a legal `inspect.Signature` the way
+    `_get_list_of_params_with_type` does (the `/` and `*` markers from the two flags) and parsing the text gives the
+    same names, kinds and default flags back — for every legal signature -/
+theorem stub_method_text_roundtrip (f : String) (ps : List RParam) (ret : Option Ann) (hf : identOk f = true)
+    (hne : ps ≠ []) (hv : validSig ps = true) (hok : ∀ p ∈ ps, rparamOk p = true ∧ noVarDefault p = true)
+    (hret : optWf ret = true) :
+    parseDef (methodToks f ps ret) = some ⟨f, ps.map RParam.info⟩ :=
+  c16_method_roundtrip f ps ret hf hne hv hok hret
+
+/-- parameter names of the generated `__init__` are pairwise distinct (so the stub compiles) exactly when no field
+    is named `self` or — when the class gets `**kw` — `kw`: the exact region of the known finding
+    "uncompilable-stub:parameter-name-clash" for `__init__` -/
+theorem stub_init_dupfree_iff (dflt apd : Bool) (c : ClassInfo) :
+    dupFree (["self"] ++ ((stubInit dflt apd c).params.map (·.name) ++
+        (if (stubInit dflt apd c).kw then ["kw"] else []))) =
+      ((stubInit dflt apd c).params.map (·.name)).all
+        (fun n => !(fixedNames ["self"] (stubInit dflt apd c).kw).contains n) :=
+  c16_dupFree_method ["self"] _ _ (by decide) (by decide) (c16_nodup_stubArgs dflt c)
+
+/-- the same for `from_other_class` / `from_trusted_data`: distinct iff no field is named `cls`, `source_object`,
+    `ignore_props` or (with `**kw`) `kw` -/
+theorem stub_helper_dupfree_iff (dflt apd : Bool) (c : ClassInfo) :
+    dupFree (["cls", "source_object", "ignore_props"] ++ ((stubInit dflt apd c).params.map (·.name) ++
+        (if (stubInit dflt apd c).kw then ["kw"] else []))) =
+      ((stubInit dflt apd c).params.map (·.name)).all
+        (fun n => !(fixedNames ["cls", "source_object", "ignore_props"] (stubInit dflt apd c).kw).contains n) :=
+  c16_dupFree_method _ _ _ (by decide) (by decide) (c16_nodup_stubArgs dflt c)
+
+/-- `class S(Structure): source_object: String` — the kernel-checked instance of the finding: the header parses,
+    two parameters are called `source_object` -/
+def ceNameClash : ClassInfo := .mk { name := "S", fields := [{ name := "source_object" }] } []
+
+theorem name_clash_counterexample :
+    (parseDef (helperToks (fun _ => .name ["str"]) .fromOtherClass (stubInit true true ceNameClash))).isSome = true ∧
+    dupFree (["cls", "source_object", "ignore_props"] ++ ((stubInit true true ceNameClash).params.map (·.name) ++
+      (if (stubInit true true ceNameClash).kw then ["kw"] else []))) = false := by
+  decide
+
+/-- non-vacuity, at the character level: the `__init__` of `exHierarchy` as text, lexed and parsed -/
+def exAnns : String → Ann
+  | "o" => .sub ["Optional"] [.name ["int"]]
+  | "c" => .sub ["dict"] [.name ["str"], .sub ["Union"] [.name ["int"], .name ["datetime", "date"]]]
+  | "z" => .sub ["Callable"] [.lst [.name ["int"]], .name ["None"]]
+  | "m" => .sub ["Literal"] [.lit, .lit]
+  | _ => .name ["str"]
+
+set_option maxRecDepth 100000 in
+theorem stub_text_example :
+    toksText (initToks exAnns (stubInit true true exHierarchy)) =
+      "def __init__ ( self , m : Literal [ 0 , 0 ] , a : str , o : Optional [ int ] = None , " ++
+      "c : Optional [ dict [ str , Union [ int , datetime . date ] ] ] = None , " ++
+      "z : Optional [ Callable [ [ int ] , None ] ] = None ) : ..." ∧
+    (lexPy (toksText (initToks exAnns (stubInit true true exHierarchy)))).bind parseDef =
+      some ⟨"__init__", [⟨"self", .pk, false⟩, ⟨"m", .pk, false⟩, ⟨"a", .pk, false⟩, ⟨"o", .pk, true⟩,
+        ⟨"c", .pk, true⟩, ⟨"z", .pk, true⟩]⟩ ∧
+    textDomain exAnns (stubInit true true exHierarchy).params = true := by
+  decide
+
+set_option maxRecDepth 100000 in
+/-- the recogniser is not trivial: the texts of the repaired defects and of typical breakage are rejected -/
+theorem parse_rejects_examples :
+    -- a parameter without default after one with default (finding "required-optional-default" era ordering)
+    (lexPy "def __init__(self, e: Optional[int] = None, s: str, **kw): ...").bind parseDef = none ∧
+    -- `= None` inside a subscription (fixed finding "unparsable-stub:nested-optional-default")
+    (lexPy "def __init__(self, m: dict[str, Optional[int] = None]): ...").bind parseDef = none ∧
+    -- `**kw` not last, bare `*` without a named parameter, `/` first, two `*`
+    (lexPy "def f(self, **kw, a: int = None): ...").bind parseDef = none ∧
+    (lexPy "def f(cls, source_object: Any, *, **kw): ...").bind parseDef = none ∧
+    (lexPy "def f(/, a): ...").bind parseDef = none ∧
+    (lexPy "def f(*a, *, b): ...").bind parseDef = none ∧
+    -- unbalanced bracket, missing comma, unterminated string (seeded C16-10: `Literal["1/2"", "3/4""]`)
+    (lexPy "def f(a: dict[str, int): ...").bind parseDef = none ∧
+    (lexPy "def f(a: int b: str): ...").bind parseDef = none ∧
+    (lexPy "def f(size: Literal[\"1/2\"\", \"3/4\"\"]): ...").bind parseDef = none ∧
+    -- and a positional-only marker is read back
+    (lexPy "def f(a, /, b=None, *args, c, **kw) -> dict[str, int]: ...").bind parseDef =
+      some ⟨"f", [⟨"a", .po, false⟩, ⟨"b", .pk, true⟩, ⟨"args", .va, false⟩, ⟨"c", .ko, false⟩, ⟨"kw", .vk, false⟩]⟩ := by
   decide
 
 end Typedpy.C16
